@@ -121,4 +121,26 @@ example : ((run (init 2000 1000 2000) demoOps).2.map (fun e => (e.start, e.rows.
 example : ((run (init 700 1000 2000) demoOps).2.map (fun e => (e.start, e.rows.map (·.id))))
     = [(10000, [1, 3])] := by decide
 
+/-- **A late row that a fired interval took in stays buffered** (ALLOWEDLATENESS > 0): intervals overlap, so the row may
+also belong to pending intervals; whatever re-delivered it, the Add leaves it in the buffer the pending intervals are cut
+from (together with eviction safety, `evict_safe`, that is what puts it into their first firings). -/
+theorem redelivered_row_stays_buffered (s : SlidingLate.SWL) (r : Tumbling.Row) (now : Int)
+    (h : (SlidingLate.lateTargets s r now).isEmpty = false) :
+    r ∈ (SlidingLate.stepAdd s r now).1.base.data := by
+  show r ∈ (SlidingLate.addBase s r now).data
+  unfold SlidingLate.addBase
+  rw [h, Bool.false_or]
+  by_cases hk : Sliding.kept s.base r now = true
+  · simp [hk, Sliding.stepAdd]
+  · simp [hk]
+
+/-- … and so does every late row inside the current, not yet fired interval, with or without an allowance -/
+theorem late_row_in_current_slot_stays_buffered (s : SlidingLate.SWL) (r : Tumbling.Row) (now : Int)
+    (h : Tumbling.inSlot s.base.size (Sliding.curInit s.base r) r = true) :
+    r ∈ (SlidingLate.stepAdd s r now).1.base.data := by
+  show r ∈ (SlidingLate.addBase s r now).data
+  have hk : Sliding.kept s.base r now = true := by simp [Sliding.kept, h]
+  unfold SlidingLate.addBase
+  simp [hk, Sliding.stepAdd]
+
 end C08
